@@ -362,6 +362,20 @@ reg(
 )
 
 reg(
+    "C25",
+    "translation_validation",
+    "JQIDENT evaluates jq's value identities from MIR through both evaluators (parser + jq::eval::eval and eval_generic::eval_with_cursor): each identity is a program "
+    "whose only correct output is `true` — tojson|fromjson, to_entries|from_entries, with_entries(.), fromstream(tostream), @base64|@base64d, @uri|@urid, "
+    "setpath(p; getpath(p)) for every p in paths, sort is an ordered permutation, unique is the sorted deduplication with strictly increasing neighbours, assignment sets "
+    "exactly the assigned path and leaves every unrelated path alone, reverse and explode|implode involutions, keys sorted — on JSON values of every kind (nested, "
+    "non-ASCII, extreme numbers, mixed-type arrays for the total order). 22 identities x 9 values quick / 32 thorough. Evaluations needing an unmodelled item are skipped "
+    "and counted (fail closed below 50%). A value family, not all values.",
+    [only_cfgs(_lazy("jqident", "rule_identities"), ["cli"])],
+    quick=["cli"],
+    technique="finite-domain evaluation of parser and evaluators' MIR on identity programs over a value family",
+)
+
+reg(
     "C27",
     "translation_validation",
     "Only the JSON-output clause on YAML input, at the library's two printing entry points: for the cursors a navigation program yields (each document, its "
